@@ -603,6 +603,7 @@ func c18(r *Report, s *Sem) {
 			r.Check(R6, "var "+g.Name()+" / access under lock in func "+fnName(ac.in.Parent()), p.instrPos(ac.in), ok, fmt.Sprintf("locks held: %v", hl))
 		}
 	}
+	r.Import(s, "C13", "R11", "R8", "Close finishes every session: the finishing call stops the receiver and waits for it, so the receiver must be interruptible wherever it hands an envelope to a stream (a plain send parks it as soon as the dispatch loop has left, and the finished callback never fires)", 4)
 }
 
 func sortedMembers(pkg *ssa.Package) []ssa.Member {
